@@ -238,7 +238,11 @@ class CasJsonDeserializer:
 
             return view
         else:
-            return cas.create_view(view_name, xmiID=fs_id, sofaNum=sofa_num)
+            try:
+                # The view has already been created when its sofa was parsed
+                return cas.get_view(view_name)
+            except KeyError:
+                return cas.create_view(view_name, xmiID=fs_id, sofaNum=sofa_num)
 
     def _parse_view(self, cas: Cas, view_name: str, json_view: Dict[str, any], feature_structures: Dict[str, any]):
         view = self._get_or_create_view(cas, view_name)
